@@ -158,7 +158,8 @@ def step (d : D) (op impl : String) : D × DrvOut :=
       let m := if gs.isEmpty then "400" else match listModel (gs.map (·.seg)) st fin with
         | none => "404"
         | some es => "200 " ++ fmtEntries es
-      let sp := listSpec gs st fin impl
+      let sp := if impl.startsWith "panic" then "FAIL GET /list panicked (handlerExitOnPanic exits the server): " ++ impl
+        else listSpec gs st fin impl
       (d, { model := m, spec := sp })
     | _, _ => (d, { model := "bad-op" })
   | ["get", s, du] =>
@@ -175,8 +176,9 @@ def step (d : D) (op impl : String) : D × DrvOut :=
         | none => "404"
         | some os => "200 " ++ fmtGet os
       let m := if impl != m && impl == mFixed then impl else m
-      let sp := getSpec tr gs st du impl
-      let sp := if sp.startsWith "VIOL " then
+      let sp := if impl.startsWith "panic" then "VIOL-PANIC" else getSpec tr gs st du impl
+      let sp := if sp == "VIOL-PANIC" then "FAIL GET /get panicked (handlerExitOnPanic exits the server): " ++ impl
+        else if sp.startsWith "VIOL " then
           (if m == impl then "KNOWN get-stops-at-first-cutoff " ++ (sp.drop 5).toString else "FAIL " ++ (sp.drop 5).toString)
         else sp
       (d, { model := m, spec := sp })
